@@ -157,12 +157,13 @@ def entries(v, rng):
     yield "avc1_pasp", isogen.visual_entry("avc1", w, h, [Box("pasp", [F(4, 1), F(4, 1)]), isogen.avcc()])
     many = tuple((0x80 | (32 + i % 3), (bytes([i]),)) for i in range(40))
     for arrays in ((), ((32, (b"\x40\x01",)),), ((0x80 | 33, (b"\x42\x01\x02", b"")), (34, ())), ((32, (b"\x40\x01\x0c",)), (33, (b"ab",))), ((33, (b"",) * 3),),
-                   ((32, tuple(bytes([j % 256, j % 251]) for j in range(300))),), many):
+                   ((32, tuple(bytes([j % 256, j % 251]) for j in range(300))),), many,
+                   ((33, (bytes(j % 253 for j in range(65535)),)),), ((0x80 | 34, (bytes(j % 251 for j in range(65534)), b"\x01")),)):
         items = [F(1, 1), F(1, v.u(1)), F(4, v.u(4)), F(6, v.u(6)), F(1, v.u(1)), F(2, 0xf000 | v.u(2, 4096)), F(1, 0xfc | v.u(1, 4)), F(1, 0xfc | v.u(1, 4)),
                  F(1, 0xf8 | v.u(1, 8)), F(1, 0xf8 | v.u(1, 8)), F(2, v.u(2)), F(1, v.u(1)), F(1, len(arrays))]
         for typ, nalus in arrays:
             items += [F(1, typ), F(2, len(nalus))] + [x for nn in nalus for x in (F(2, len(nn)), Raw(nn))]
-        yield "hev1_%d" % len(arrays), isogen.visual_entry("hev1", w, h, [Box("hvcC", items)])
+        yield "hev1_%d_%d" % (len(arrays), sum(len(nn) for _, ns_ in arrays for nn in ns_)), isogen.visual_entry("hev1", w, h, [Box("hvcC", items)])
     yield "vp09", isogen.visual_entry("vp09", w, h, [full("vpcC", 1, 0, [F(1, v.u(1)), F(1, v.u(1)), F(1, v.u(1)), F(1, v.u(1)), F(1, v.u(1)), F(1, v.u(1)), F(2, 0)])])
     # the full 4-bit range of the channel configuration (values 8..15 have no ChannelConfig variant but are wire values) and of the frequency index
     wide = [(2, 3, ch, 0) for ch in (0, 3, 4, 5, 8, 9, 10, 11, 12, 13, 14, 15)] + [(2, fi, 2, 0) for fi in (1, 2, 5, 6, 7, 8, 9, 10, 13, 14)] + [(a, 4, 2, 0) for a in (3, 4, 6, 17, 23, 30)]
